@@ -4,7 +4,8 @@
 export GOFLAGS=-mod=mod GOPROXY=off GOSUMDB=off GOTOOLCHAIN=local
 N=${1:-40}; shift
 BIN=/tmp/det.$$.test
-(cd /verif/sim && go1.26.8 test -c -tags verif -o $BIN ./worker) || exit 2
+/verif/tools/build_l2.sh $BIN || exit 2   # the L2 binary contains every L1 scenario as well
+export GODEBUG=asynctimerchan=0
 $BIN -test.run '^TestWorker$' -mode list -out /tmp/det.$$.list.json >/dev/null
 SCS="$@"; [ -z "$SCS" ] && SCS=$(python3 -c "import json;print(' '.join(m['Name'] for m in json.load(open('/tmp/det.$$.list.json'))))")
 bad=0
